@@ -1,3 +1,220 @@
-//! Solver harnesses mounted into rs-matter/src/pairing/qr.rs
+//! C17 - onboarding payloads: manual pairing code (Verhoeff digit, digit groups), QR bit reader
+//! and fixed-field packing. Mounted into rs-matter/src/pairing/qr.rs.
 #![allow(unused_imports, dead_code)]
 use super::*;
+use crate::verif_support::*;
+use crate::{vassert, vcover, vok};
+
+// --- reference Verhoeff (dihedral group D5 tables), independent of the `verhoeff` crate -------
+const VD: [[u8; 10]; 10] = [
+    [0, 1, 2, 3, 4, 5, 6, 7, 8, 9],
+    [1, 2, 3, 4, 0, 6, 7, 8, 9, 5],
+    [2, 3, 4, 0, 1, 7, 8, 9, 5, 6],
+    [3, 4, 0, 1, 2, 8, 9, 5, 6, 7],
+    [4, 0, 1, 2, 3, 9, 5, 6, 7, 8],
+    [5, 9, 8, 7, 6, 0, 4, 3, 2, 1],
+    [6, 5, 9, 8, 7, 1, 0, 4, 3, 2],
+    [7, 6, 5, 9, 8, 2, 1, 0, 4, 3],
+    [8, 7, 6, 5, 9, 3, 2, 1, 0, 4],
+    [9, 8, 7, 6, 5, 4, 3, 2, 1, 0],
+];
+const VP: [[u8; 10]; 8] = [
+    [0, 1, 2, 3, 4, 5, 6, 7, 8, 9],
+    [1, 5, 7, 6, 2, 8, 3, 0, 9, 4],
+    [5, 8, 0, 3, 7, 9, 6, 1, 4, 2],
+    [8, 9, 1, 6, 0, 4, 3, 5, 2, 7],
+    [9, 4, 5, 3, 1, 2, 6, 8, 7, 0],
+    [4, 2, 8, 6, 5, 7, 3, 9, 0, 1],
+    [2, 7, 9, 3, 8, 0, 6, 4, 1, 5],
+    [7, 0, 4, 6, 9, 1, 3, 2, 5, 8],
+];
+
+/// true iff the digit string (values 0..9, check digit last) has a valid Verhoeff checksum
+fn ref_verhoeff_ok(d: &[u8]) -> bool {
+    let mut c = 0u8;
+    let mut i = 0;
+    while i < d.len() {
+        let digit = d[d.len() - 1 - i];
+        c = VD[c as usize][VP[i % 8][digit as usize] as usize];
+        i += 1;
+    }
+    c == 0
+}
+
+fn ref_num(d: &[u8]) -> u32 {
+    let mut v = 0u32;
+    let mut i = 0;
+    while i < d.len() {
+        v = v * 10 + d[i] as u32;
+        i += 1;
+    }
+    v
+}
+
+/// Differential oracle for the 11-character manual pairing code: on EVERY ASCII string of 11
+/// characters the parser accepts exactly the strings of 11 digits with a valid Verhoeff digit,
+/// a leading digit <= 3, a second group <= 65535 and a third group <= 8191, and returns the
+/// passcode and short discriminator the spec's digit layout prescribes.
+#[cfg_attr(kani, kani::proof)]
+#[cfg_attr(kani, kani::unwind(14))]
+#[cfg_attr(not(kani), test)]
+fn c17_q_pairing_code_parse_equals_reference_11() {
+    let b: [u8; 11] = any_bytes::<11>();
+    let mut d = [0u8; 11];
+    let mut all_digits = true;
+    let mut i = 0;
+    while i < 11 {
+        assume(b[i] < 0x80);
+        if b[i] >= b'0' && b[i] <= b'9' {
+            d[i] = b[i] - b'0';
+        } else {
+            all_digits = false;
+        }
+        i += 1;
+    }
+    // SAFETY: ASCII only
+    let s = unsafe { core::str::from_utf8_unchecked(&b) };
+    let r = QrPayload::parse_pairing_code(s);
+    let group = ref_num(&d[1..6]);
+    let high = ref_num(&d[6..10]);
+    let ok = all_digits && ref_verhoeff_ok(&d) && d[0] <= 3 && group <= 0xffff && high <= 0x1fff;
+    vcover!(ok);
+    vcover!(all_digits && !ref_verhoeff_ok(&d));
+    vcover!(all_digits && ref_verhoeff_ok(&d) && d[0] > 3);
+    match r {
+        Ok(p) => {
+            vassert!(ok, "ROLE:pairing-code-with-bad-check-digit-or-out-of-range-group-refused");
+            vassert!(p.passcode() == (high << 14) | (group & 0x3fff), "ROLE:pairing-code-passcode-equals-reference");
+            vassert!(p.short_discriminator() as u32 == ((d[0] as u32 & 3) << 2) | ((group >> 14) & 3), "ROLE:pairing-code-short-discriminator-equals-reference");
+            vassert!(p.vid_pid().is_none(), "ROLE:short-pairing-code-carries-no-vid-pid");
+        }
+        Err(_) => vassert!(!ok, "ROLE:well-formed-pairing-code-accepted"),
+    }
+}
+
+/// The QR bit reader against a 4-line reference: `read(len)` at any position of any <= 6-byte
+/// buffer returns the LSB-first little-endian field or refuses a read past the end; the
+/// position advances by exactly `len` on success and not at all on refusal.
+#[cfg_attr(kani, kani::proof)]
+#[cfg_attr(kani, kani::unwind(34))]
+#[cfg_attr(not(kani), test)]
+fn c17_q_qr_bit_reader_equals_reference() {
+    let b: [u8; 6] = any_bytes::<6>();
+    let n = any_usize();
+    assume(n <= 6);
+    let pos = any_usize();
+    assume(pos <= 48);
+    let len = any_usize();
+    assume(len <= 32);
+    let mut rd = BitReader { data: &b[..n], pos };
+    let r = rd.read(len);
+    if pos + len > n * 8 {
+        vcover!(pos + len == n * 8 + 1);
+        vassert!(r.is_err() && rd.pos == pos, "ROLE:qr-bit-read-past-the-end-refused");
+    } else {
+        vcover!(len == 27 && pos == 21);
+        let mut whole: u64 = 0;
+        let mut i = n;
+        while i > 0 {
+            whole = (whole << 8) | b[i - 1] as u64;
+            i -= 1;
+        }
+        let want = if len == 0 { 0 } else { ((whole >> pos) & ((1u64 << len) - 1)) as u32 };
+        vassert!(r.ok() == Some(want), "ROLE:qr-bit-field-equals-reference");
+        vassert!(rd.pos == pos + len, "ROLE:qr-bit-reader-advances-by-len");
+    }
+}
+
+/// The payload validity predicate on the vendor / product id rule of the spec (5.1.3.1:
+/// vendor id is either unspecified (0) or an operational vendor id 0x0001..=0xFFF4; a product id
+/// of 0 only goes with an unspecified vendor id) and on the passcode range; every other field
+/// concrete and valid.
+#[cfg_attr(kani, kani::proof)]
+#[cfg_attr(kani, kani::unwind(6))]
+#[cfg_attr(not(kani), test)]
+fn c17_q_qr_payload_validity_equals_reference() {
+    let vid = any_u16();
+    let pid = any_u16();
+    let pass = any_u32();
+    let p = QrPayload::new(
+        DiscoveryCapabilities::IP,
+        CommFlowType::Standard,
+        BasicCommData { password: pass.to_le_bytes().into(), discriminator: any_u16() & 0xfff },
+        vid,
+        pid,
+        "",
+        no_optional_data,
+    );
+    let pass_ok = pass != 0
+        && pass <= 99999998
+        && pass != 11111111
+        && pass != 22222222
+        && pass != 33333333
+        && pass != 44444444
+        && pass != 55555555
+        && pass != 66666666
+        && pass != 77777777
+        && pass != 88888888
+        && pass != 12345678
+        && pass != 87654321;
+    let vid_ok = vid <= 0xfff4;
+    let pid_ok = pid != 0 || vid == 0;
+    vcover!(pass_ok && vid_ok && pid_ok && vid == 0xfff1);
+    vcover!(pass_ok && !vid_ok);
+    vassert!(p.is_valid() == (pass_ok && vid_ok && pid_ok), "ROLE:qr-payload-valid-iff-fields-in-range");
+}
+
+/// Fixed-field packing: the 88 bits `emit_all_bits` produces for arbitrary field values, packed
+/// LSB-first, read back with the parser's bit reader in the parser's field order, give the same
+/// fields (the base-38 layer between the two is `c17_q_base38_*`).
+#[cfg_attr(kani, kani::proof)]
+#[cfg_attr(kani, kani::unwind(90))]
+#[cfg_attr(not(kani), test)]
+fn c17_q_qr_fixed_fields_bits_roundtrip() {
+    let vid = any_u16();
+    let pid = any_u16();
+    let pass = any_u32();
+    assume(pass < (1 << 27));
+    let disc = any_u16();
+    assume(disc < (1 << 12));
+    let caps = any_u8();
+    let flow = match any_u8() % 3 {
+        0 => CommFlowType::Standard,
+        1 => CommFlowType::UserIntent,
+        _ => CommFlowType::Custom,
+    };
+    let p = QrPayload::new(
+        DiscoveryCapabilities::from_bits_retain(caps),
+        flow,
+        BasicCommData { password: pass.to_le_bytes().into(), discriminator: disc },
+        vid,
+        pid,
+        "",
+        no_optional_data,
+    );
+    let mut bytes = [0u8; 12];
+    let mut nbits = 0usize;
+    for bit in p.emit_all_bits() {
+        match bit {
+            Ok(bit) => {
+                vassert!(nbits < 96, "ROLE:qr-fixed-part-is-88-bits");
+                if bit {
+                    bytes[nbits / 8] |= 1 << (nbits % 8);
+                }
+                nbits += 1;
+            }
+            Err(_) => vassert!(false, "ROLE:NEVER:emit-bits-no-error"),
+        }
+    }
+    vassert!(nbits == 88, "ROLE:qr-fixed-part-is-88-bits");
+    let mut rd = BitReader::new(&bytes[..11]);
+    vassert!(rd.read(3).ok() == Some(0), "ROLE:qr-version-roundtrip");
+    vassert!(rd.read(16).ok() == Some(vid as u32), "ROLE:qr-vid-roundtrip");
+    vassert!(rd.read(16).ok() == Some(pid as u32), "ROLE:qr-pid-roundtrip");
+    vassert!(rd.read(2).ok() == Some(flow as u32), "ROLE:qr-flow-roundtrip");
+    vassert!(rd.read(8).ok() == Some(caps as u32), "ROLE:qr-capabilities-roundtrip");
+    vassert!(rd.read(12).ok() == Some(disc as u32), "ROLE:qr-discriminator-roundtrip");
+    vassert!(rd.read(27).ok() == Some(pass), "ROLE:qr-passcode-roundtrip");
+    vassert!(rd.read(4).ok() == Some(0), "ROLE:qr-padding-is-zero");
+    vcover!(pass == (1 << 27) - 1 && disc == 0xfff);
+}
